@@ -56,6 +56,8 @@ type c01World struct {
 	checked  int
 	withCan  int
 	ns1      *namespace.Namespace
+	// first 17 bytes (term, version, nonce) of every record written under a keyring term -> the key it was written under
+	nonces map[string]string
 }
 
 func (w *c01World) logf(f string, a ...any) { w.log = append(w.log, fmt.Sprintf(f, a...)) }
@@ -113,6 +115,18 @@ func (w *c01World) scan() (sig, msg string) {
 				w.withCan++
 				break
 			}
+		}
+		// a (key term, nonce) pair never occurs twice in the life of the store, restarts and reseals included: a repeated
+		// pair is a repeated keystream (the XOR of the two stored records is the XOR of their plaintexts)
+		if len(o.Val) >= 17+16 {
+			if w.nonces == nil {
+				w.nonces = map[string]string{}
+			}
+			h := string(o.Val[:17])
+			if prev, dup := w.nonces[h]; dup {
+				return "term-and-nonce-repeat", fmt.Sprintf("physical records %q and (earlier) %q start with the same term, version and nonce %x: both are encrypted with the same keystream", o.Key, prev, o.Val[:17])
+			}
+			w.nonces[h] = o.Key
 		}
 	}
 	return "", ""
